@@ -453,7 +453,17 @@ func (c *Ctx) analyseLoop(nodes ...ast.Node) *loopInfo {
 			}
 			li.modVars[obj] = true
 			if c.boxedVars[obj] {
-				li.heapFams["*"] = true
+				// an address-taken local lives in a heap box of its own type: writing it writes that family
+				if validType(obj.Type()) && !c.opaqueType(obj.Type()) {
+					var bf [][2]string
+					c.leafFamilies(c.elemPrefix(obj.Type()), obj.Type(), &bf)
+					for _, f := range bf {
+						li.heapFams[f[0]] = true
+						li.rootsUnk[f[0]] = true
+					}
+				} else {
+					li.heapFams["*"] = true
+				}
 			}
 			// classify x = x[a:b] / x = append(x, ...)
 			if rhs != nil {
@@ -474,8 +484,7 @@ func (c *Ctx) analyseLoop(nodes ...ast.Node) *loopInfo {
 			}
 			otherAssign[obj] = true
 		default:
-			li.heapFams["*"] = true // refined below by type
-			c.noteHeapWrite(li, e)
+			c.noteHeapWrite(li, e) // the written families, or "*" when they cannot be determined
 		}
 	}
 	for _, n := range nodes {
@@ -532,7 +541,7 @@ func (c *Ctx) analyseLoop(nodes ...ast.Node) *loopInfo {
 }
 
 func (c *Ctx) noteHeapWrite(li *loopInfo, e ast.Expr) {
-	delete(li.heapFams, "*")
+	// never clears an "everything" mark left by another statement of the loop (a call with an unknown footprint)
 	var fams [][2]string
 	tv, ok := c.pkg.info.Types[e]
 	if !ok || !validType(tv.Type) {
@@ -729,6 +738,28 @@ func (c *Ctx) noteCallWrites(li *loopInfo, call *ast.CallExpr) {
 		return
 	}
 	_, _, fc := c.prog.lookupFunc(fn)
+	// interface whose values are pointers to one concrete type ("impl T"): the concrete method's contract (as in callStatic)
+	if sig := fn.Type().(*types.Signature); fc == nil && sig.Recv() != nil {
+		if _, isIface := sig.Recv().Type().Underlying().(*types.Interface); isIface {
+			if n, td := c.ghostOwner(sig.Recv().Type()); td != nil && td.Impl != "" {
+				if ipk := c.prog.byPath[n.Obj().Pkg().Path()]; ipk != nil && ipk.contracts != nil {
+					key := td.Impl + "." + fn.Name()
+					if ifc, ifd := ipk.contracts.Funcs[key], ipk.funcs[key]; ifc != nil && ifd != nil {
+						if obj, ok := ipk.info.Defs[ifd.Name].(*types.Func); ok {
+							if ifc.Pure || len(ifc.Modifies) == 0 {
+								return
+							}
+							if c.noteContractWrites(li, call, obj, ifc) {
+								return
+							}
+							li.heapFams["*"] = true
+							return
+						}
+					}
+				}
+			}
+		}
+	}
 	if fc == nil {
 		if ic := c.ifaceContract(fn); ic != nil {
 			fc = ic.fc
@@ -748,7 +779,46 @@ func (c *Ctx) noteCallWrites(li *loopInfo, call *ast.CallExpr) {
 func (c *Ctx) noteContractWrites(li *loopInfo, call *ast.CallExpr, fn *types.Func, fc *FuncContract) bool {
 	_, fd, _ := c.prog.lookupFunc(fn)
 	if fd == nil {
-		return false
+		// interface method / external function without a body: clauses of the shape recv.g (ghost field of the
+		// interface type) are mapped to that ghost family; anything else is unknown
+		sig := fn.Type().(*types.Signature)
+		if sig.Recv() == nil {
+			return false
+		}
+		n, td := c.ghostOwner(sig.Recv().Type())
+		if td == nil {
+			return false
+		}
+		gf := map[string]bool{}
+		for _, cl := range fc.Modifies {
+			s, ok := cl.Expr.(*SSel)
+			if !ok {
+				return false
+			}
+			id, ok := s.X.(*SIdent)
+			if !ok || id.Name != "recv" {
+				return false
+			}
+			found := false
+			for _, g := range td.Ghost {
+				if g.Name == s.Name {
+					var fs [][2]string
+					c.leafFamilies(c.elemPrefix(n)+"."+s.Name, c.resolveTypeText(g.Type), &fs)
+					for _, f := range fs {
+						gf[f[0]] = true
+					}
+					found = true
+				}
+			}
+			if !found {
+				return false
+			}
+		}
+		for f := range gf {
+			li.heapFams[f] = true
+			li.rootsUnk[f] = true
+		}
+		return true
 	}
 	sig := fn.Type().(*types.Signature)
 	paramType := map[string]types.Type{}
